@@ -49,18 +49,29 @@ def ref_area(x, y, div, max_x, max_y):
     return by * 3 + bx, nx or ny
 
 
+def lane_scenes(lane):
+    """(scenes, egos): the frame results of every manager generation of a lane with the world-truth ego pose of each."""
+    all_scenes = lane.old_results + [list(lane.manager.frame_results)]
+    egos = lane.old_egos + [[(st.ego_ref, st.frame_kind == "loaded") for st in lane.steps
+                             if st.result is not None and st.manager_gen == lane.generation]]
+    keep = [i for i, s in enumerate(all_scenes) if s]
+    return [all_scenes[i] for i in keep], [egos[i] for i in keep]
+
+
 class C19Monitor(X.Monitor):
     def on_analyze(self, ctx, lane, manager, op, index):
+        scenes, egos = lane_scenes(lane)
+        check_tables(ctx, lane, scenes, egos, op.get("div", 1), index)
+
+
+def check_tables(ctx, lane, scenes, egos, div, index):
+    if True:
         R = ctx.R
         cfg = ctx.plan["config"]
         rg = cfg["range"]
         if rg["kind"] == "xy" and (isinstance(rg["max_x"], list) or isinstance(rg["max_y"], list)):
             ctx.skip("c19_per_label_range")  # the analyzer's area grid is defined for scalar bounds only
             return
-        scenes = [s for s in (lane.old_results + [list(manager.frame_results)]) if s]
-        egos = lane.old_egos + [[(st.ego_ref, st.frame_kind == "loaded") for st in lane.steps
-                                 if st.result is not None and st.manager_gen == lane.generation]]
-        egos = [e for e, s in zip(egos, lane.old_results + [list(manager.frame_results)]) if s]
         if not scenes:
             ctx.skip("c19_nothing_to_analyze")
             return
@@ -73,7 +84,6 @@ class C19Monitor(X.Monitor):
         except Exception as e:  # noqa
             ctx.violate("C19", "result_store", "frame results cannot be pickled: %s" % type(e).__name__, {"error": str(e)[:200]}, index)
             return
-        div = op.get("div", 1)
         try:
             an = PerceptionAnalyzer3D(lane.config, num_area_division=div)
             for s in stored:
@@ -287,9 +297,17 @@ class C19Monitor(X.Monitor):
                     ctx.violate("C19", "selection", "area selection %d returns %d rows, %d pairs lie in that area" % (a, len(sub), cnt), {}, index)
             dists = sorted(float(df.loc[(i, role)]["distance"]) for i in range(len(rows)) for role in ("ground_truth", "estimation")
                            if not _isnull(df.loc[(i, role)]["distance"]))
+            bands = []
             if len(dists) >= 2 and dists[0] < dists[-1]:
-                lo, hi = dists[0], (dists[0] + dists[-1]) / 2.0
-                if lo < hi and not any(abs(d - hi) < 1e-9 for d in dists):
+                bands.append((dists[0], (dists[0] + dists[-1]) / 2.0))
+                # a band whose lower bound separates the two rows of one pair
+                for i in range(len(rows)):
+                    dg, de = df.loc[(i, "ground_truth")]["distance"], df.loc[(i, "estimation")]["distance"]
+                    if not _isnull(dg) and not _isnull(de) and abs(float(dg) - float(de)) > 1e-3:
+                        bands.append(((float(dg) + float(de)) / 2.0, dists[-1] + 1.0))
+                        break
+            for lo, hi in bands:
+                if lo < hi and not any(abs(d - hi) < 1e-9 or abs(d - lo) < 1e-9 for d in dists):
                     want = sum(1 for i in range(len(rows)) if any(
                         (not _isnull(df.loc[(i, role)]["distance"])) and lo <= float(df.loc[(i, role)]["distance"]) < hi
                         for role in ("ground_truth", "estimation")))
